@@ -257,6 +257,21 @@ class Gen:
     def op_new_record(self, kind=None, c=None, reuse_id=0.3):
         rng = self.rng
         c = c or self.pick_cref()
+        if kind is None and rng.random() < 0.1:
+            # a parallel relation: another kind, the same identifier and the same two endpoints as an existing one
+            rels = [r for r in self.im.cont(c)._records if r.is_relation() and r.formal_attributes[0][1] is not None
+                    and r.formal_attributes[1][1] is not None]
+            if rels:
+                r0 = rng.choice(rels)
+                k2 = rng.choice([k for k in KINDS if k not in ELEMENTS and k != "Mention"])
+                fa = self.formals(k2)
+                q = r0.identifier
+                ident = ["Q", q.namespace.prefix, q.namespace.uri, q.localpart] if q is not None else "none"
+                attrs = []
+                for a, (_, v) in zip(fa[:2], r0.formal_attributes[:2]):
+                    attrs.append([["Q", "prov", PROV, a], ["qn", v.namespace.prefix, v.namespace.uri, v.localpart]])
+                self.emit(["NewRecord", c, k2, ident, attrs])
+                return
         kind = kind or rng.choice(KINDS)
         if kind in ELEMENTS or rng.random() < 0.5:
             e = self.existing_id(c) if rng.random() < reuse_id else None
